@@ -507,6 +507,9 @@ def gen_units(bases, subs):
         def fl(lst):
             return '[' + ', '.join('(fun x => x)' if m is None else '(%s%s)' % (fname(name, m), pi)
                                    for m in lst) + ']'
+        def arith(lst, b=b):
+            return '[' + ', '.join('false' if m is None or b['funcs'][m] == ('value',) else 'true'
+                                   for m in lst) + ']'
         note = ''
         if b['si_is_str'] or b['ip_is_str']:
             note = ('  -- NOTE: in the source %s a plain string (parentheses without a comma), shown here as a '
@@ -514,13 +517,15 @@ def gen_units(bases, subs):
                                                                      ('_ip_units is', b['ip_is_str'])) if f))
         out.append('def %s%s : UType := {\n%s  name := %s, parent := %s,\n  units := %s,\n  siUnits := %s,\n'
                    '  ipUnits := %s,\n  baseIdx := %d,\n  toBase := %s,\n  fromBase := %s,\n'
-                   '  min := %s, max := %s,\n  ipTarget := %s, siTarget := %s, strictIp := %s, strictSi := %s }'
+                   '  min := %s, max := %s,\n  ipTarget := %s, siTarget := %s, strictIp := %s, strictSi := %s,\n'
+                   '  toBaseArith := %s, fromBaseArith := %s }'
                    % (name + 'T', ' (pi : Rat)' if b['pi'] else '', note, lean_str(name), lean_str(name),
                       lean_str_list(b['units']),
                       lean_str_list(b['si']), lean_str_list(b['ip']), b['units'].index(b['base']),
                       fl(b['to_base']), fl(b['from_base']), lean_bound(b['min']), lean_bound(b['max']),
                       '[%s]' % ', '.join(map(str, b['to_ip'])), '[%s]' % ', '.join(map(str, b['to_si'])),
-                      'true' if b['strict_ip'] else 'false', 'true' if b['strict_si'] else 'false'))
+                      'true' if b['strict_ip'] else 'false', 'true' if b['strict_si'] else 'false',
+                      arith(b['to_base']), arith(b['from_base'])))
         out.append('')
     out.append('/-- Every base type (the classes deriving directly from DataTypeBase; GenericType excluded). -/')
     out.append('def baseTypes (pi : Rat) : List UType := [%s]' % ', '.join(
